@@ -2566,36 +2566,43 @@ func genGlobalVarDecl(nodes []*node, sc *scope) (*node, error) {
 		deps[n] = getVarDependencies(n, sc)
 	}
 
-	inited := map[*node]bool{}
-	revisit := []*node{}
-	for {
-		for _, n := range nodes {
-			canInit := true
-			for _, d := range deps[n] {
-				if !inited[d] {
-					canInit = false
-				}
+	// Repeatedly select the earliest variable in declaration order which is
+	// ready for initialization, i.e. which does not depend on an uninitialized
+	// variable (Go specification, Package initialization). The variables
+	// which are not declared in nodes are already initialized.
+	pending := make(map[*node]bool, len(nodes))
+	for _, n := range nodes {
+		pending[n] = true
+	}
+	ready := func(n *node) bool {
+		for _, d := range deps[n] {
+			if pending[d] {
+				return false
 			}
-			if !canInit {
-				revisit = append(revisit, n)
+		}
+		return true
+	}
+	for len(pending) > 0 {
+		var next, first *node
+		for _, n := range nodes {
+			if !pending[n] {
 				continue
 			}
-
-			varNode.child = append(varNode.child, n)
-			inited[n] = true
+			if first == nil {
+				first = n
+			}
+			if ready(n) {
+				next = n
+				break
+			}
 		}
-
-		if len(revisit) == 0 || equalNodes(nodes, revisit) {
-			break
+		if next == nil {
+			return nil, first.cfgErrorf("variable definition loop")
 		}
-
-		nodes = revisit
-		revisit = []*node{}
+		varNode.child = append(varNode.child, next)
+		delete(pending, next)
 	}
 
-	if len(revisit) > 0 {
-		return nil, revisit[0].cfgErrorf("variable definition loop")
-	}
 	wireChild(varNode)
 	return varNode, nil
 }
